@@ -21,6 +21,8 @@ SAFE_METHODS = {
     str: ('startswith', 'endswith', 'join', 'format', 'strip', 'split', 'upper', 'lower', 'isupper', 'islower', 'isalnum', 'isdigit', 'isdecimal', 'replace', 'find', 'index', 'count'),
     tuple: ('index', 'count'),
 }
+import string as _string
+STD_CONSTANTS = {'string.ascii_uppercase': _string.ascii_uppercase, 'string.ascii_lowercase': _string.ascii_lowercase, 'string.ascii_letters': _string.ascii_letters, 'string.digits': _string.digits}
 BUILTINS = {
     'len': len, 'max': max, 'min': min, 'range': range, 'list': list, 'set': set, 'dict': dict, 'tuple': tuple, 'sorted': sorted, 'any': any, 'all': all,
     'str': str, 'int': int, 'bool': bool, 'enumerate': enumerate, 'zip': zip, 'reversed': reversed, 'frozenset': frozenset, 'sum': sum, 'abs': abs, 'repr': repr,
@@ -397,6 +399,8 @@ class Interp:
         return bool(v)
 
     def iterate(self, v):
+        if isinstance(v, tuple) and v and v[0] in ('$name', '$method'):
+            raise Unsupported('iteration over an unresolved name ' + str(v[1] if v[0] == '$name' else v[2]))
         if self.set_order is not None and isinstance(v, (set, frozenset)):
             return sorted(v, key=repr, reverse=(self.set_order == 'desc'))
         if isinstance(v, (list, tuple, set, frozenset, dict, str, range)) or hasattr(v, '__next__') or type(v).__name__ in ('dict_items', 'dict_keys', 'dict_values', 'enumerate', 'zip', 'reversed', 'count', 'GenProxy'):
@@ -578,6 +582,8 @@ class Interp:
                 consts = getattr(self, 'constants', None)
                 if consts and full in consts:
                     return consts[full]
+                if full in STD_CONSTANTS:
+                    return STD_CONSTANTS[full]
                 return ('$name', full)
             return ('$method', base, e.attr)
         if isinstance(e, ast.JoinedStr):
@@ -681,6 +687,9 @@ class Interp:
                         names.append(k0[1].split('.')[-1])
                     elif k0 in (str, int, list, set, tuple, dict, frozenset, bool):
                         names.append(k0)
+                    elif any(k0 is c0 for c0 in self.classes.values()):
+                        # the name of a modelled class evaluated to the rule's constructor stub: it still names that class
+                        names.append([n0 for n0, c0 in self.classes.items() if c0 is k0][0])
                     else:
                         raise Unsupported('isinstance in a finite model')
                 gc0 = getattr(args[0], '_gt_cls', None)
